@@ -7,6 +7,7 @@ from pathlib import Path
 
 from pta.check import Spec
 from pta.model import AnalysisError
+from pta.pat import find, has
 from pta.order import scan
 from pta.rules.common import CGM, COPY, PREPROC, TOIL, concrete_kinds, short
 from pta.rules.c02 import high_level_kinds
@@ -132,8 +133,8 @@ def r_tables(c):
             for k in call.keywords:
                 if k.arg == "pt_namespace" and isinstance(k.value, ast.Constant):
                     spaces.add(k.value.value)
-    c.check("'pytato.' + pt_namespace + func_name" in fsrc or
-            'f"pytato.{pt_namespace}{func_name}"' in fsrc or "pytato." in fsrc,
+    c.check(has(ap, 'prim.Call(var(f"pytato.{pt_namespace}{func_name}"), $$_)')
+            or has(ap, "prim.Call(var('pytato.' + pt_namespace + func_name), $$_)"),
             "R01-TABLES", "cmath._apply_elem_wise_func", "emits-pytato-namespaced-call",
             m.loc("pytato.cmath", ap), "element-wise functions are no longer emitted in "
             "the pytato.<namespace> function name space")
@@ -292,7 +293,9 @@ def r_order(c):
     g = m.func(LC + ".generate_loopy")
     loops = [l for l in ast.walk(g) if isinstance(l, ast.For)
              and any("add_store" in ast.unparse(s) for s in l.body)]
-    c.check(len(loops) == 1 and ast.unparse(loops[0].iter) == "compute_order", "R01-ORDER",
+    co = find(g, "$co = $pp.compute_order")
+    c.check(len(loops) == 1 and len(co) == 1 and ast.unparse(loops[0].iter) == co[0]["$co"]
+            and has(g, f"{co[0]['$pp']} = preprocess($$_, $$_)"), "R01-ORDER",
             "generate_loopy", "stores-follow-compute-order", m.loc(LC, g),
             "output stores are not emitted in the pre-computed compute order")
     # a hand-written kernel is called with arguments in the callee's own
@@ -302,14 +305,18 @@ def r_order(c):
     loops = [l for l in ast.walk(lc) if isinstance(l, ast.For)
              and any("assignees.append" in ast.unparse(s_) or "params.append" in ast.unparse(s_)
                      for s_ in ast.walk(l))]
-    c.check(len(loops) == 1 and ast.unparse(loops[0].iter) == "callee_kernel.args",
+    ck = find(lc, f"$k = {lc.args.args[1].arg}.translation_unit[{lc.args.args[1].arg}.entrypoint]")
+    c.check(len(loops) == 1 and len(ck) == 1
+            and ast.unparse(loops[0].iter) == f"{ck[0]['$k']}.args",
             "R01-ORDER", "CodeGenMapper.map_loopy_call", "call-arguments-in-callee-declaration-order",
             m.loc(LC, lc),
             "the assignees/parameters of the emitted call are not collected by iterating "
             "callee_kernel.args in declaration order: loopy's positional call convention "
             "then binds operands to the wrong callee arguments")
     cm = m.func(CGM + ".map_index_lambda")
-    c.check("for name in sorted(expr.bindings)" in ast.unparse(cm), "R01-ORDER",
+    ep, sp = cm.args.args[1].arg, cm.args.args[2].arg
+    c.check(has(cm, f"{{$n: self.rec({ep}.bindings[$n], {sp}) for $n in sorted({ep}.bindings)}}"),
+            "R01-ORDER",
             "CodeGenMapper.map_index_lambda", "operands-generated-in-sorted-name-order",
             m.loc(LC, cm),
             "the operands of an index lambda are generated in the order they were "
